@@ -467,10 +467,11 @@ relation to survive the recording of related augment lists. -/
 theorem step_rel
     (htype : ∀ t, n.one? "type" = some t →
       env₁.tres.resolve env₁.reg root₁ sub₁ t = env₂.tres.resolve env₂.reg root₂ sub₂ t)
-    (hinc : n.all "include" = []) (isMod : Bool)
+    (isMod : Bool)
     (haug : isMod = true → ∀ s₁ s₂ as₁ as₂, RS s₁ s₂ → RelL RE as₁ as₂ →
       RS { s₁ with augs := s₁.augs ++ [(root₁.seq, as₁)] } { s₂ with augs := s₂.augs ++ [(root₂.seq, as₂)] })
-    (acc₁ acc₂ : Entry × TState) (f : String) (h : AccRel RE RS acc₁ acc₂)
+    (acc₁ acc₂ : Entry × TState) (f : String) (hinc : f = "include" → n.all "include" = [])
+    (h : AccRel RE RS acc₁ acc₂)
     (hk : acc₁.1.d.kind = acc₂.1.d.kind)
     (hin : f = "input" → acc₁.1.inp = [] ∧ acc₂.1.inp = [])
     (hout : f = "output" → acc₁.1.out = [] ∧ acc₂.1.out = []) :
@@ -479,11 +480,13 @@ theorem step_rel
   obtain ⟨e₂, s₂⟩ := acc₂
   obtain ⟨he, hs⟩ := h
   dsimp only at he hs hk hin hout
+  revert hinc
   have hgood : ∀ (g : EData → EData), GoodF g → RE (e₁.withD g) (e₂.withD g) := fun g hg => hC.withD _ _ g hg he
   unfold stepFn
   dsimp only
   split
   all_goals try dsimp only
+  all_goals intro hinc
   all_goals first
     | exact ⟨he, hs⟩
     | exact ⟨hC.addErrs _ _ _ (hgood _ ⟨fun _ => rfl, fun _ _ => rfl⟩), hs⟩
@@ -515,7 +518,7 @@ theorem step_rel
         (hC.withD _ _ (fun d => { d with name := "output", kind := .output }) ⟨fun _ => rfl, fun _ _ => rfl⟩ q1)
       cases e₁; cases e₂; exact this
   case h_20 =>
-    rw [hinc]
+    rw [hinc rfl]
     exact ⟨he, hs⟩
   case h_23 =>
     split
@@ -578,18 +581,18 @@ theorem step_rel
 theorem steps_rel
     (htype : ∀ t, n.one? "type" = some t →
       env₁.tres.resolve env₁.reg root₁ sub₁ t = env₂.tres.resolve env₂.reg root₂ sub₂ t)
-    (hinc : n.all "include" = []) (isMod : Bool)
+    (hinc : "include" ∈ fieldOrder n.kw → n.all "include" = []) (isMod : Bool)
     (haug : isMod = true → ∀ s₁ s₂ as₁ as₂, RS s₁ s₂ → RelL RE as₁ as₂ →
       RS { s₁ with augs := s₁.augs ++ [(root₁.seq, as₁)] } { s₂ with augs := s₂.augs ++ [(root₂.seq, as₂)] })
     (hbase : RE (e0 root₁ n) (e0 root₂ n)) (s₁ s₂ : TState) (hs : RS s₁ s₂) :
     AccRel RE RS ((fieldOrder n.kw).foldl (stepFn env₁ r1 root₁ n sub₁ vis₁ isMod) (e0 root₁ n, s₁))
       ((fieldOrder n.kw).foldl (stepFn env₂ r2 root₂ n sub₂ vis₂ isMod) (e0 root₂ n, s₂)) := by
   have k0 : (e0 root₁ n).d.kind = (e0 root₂ n).d.kind := by rw [(e0_data root₁ n).2.1, (e0_data root₂ n).2.1]
-  have S := step_rel hC env₁ env₂ r1 r2 root₁ root₂ n sub₁ sub₂ vis₁ vis₂ hch htype hinc isMod haug
+  have S := step_rel hC env₁ env₂ r1 r2 root₁ root₂ n sub₁ sub₂ vis₁ vis₂ hch htype isMod haug
   by_cases hio : "input" ∈ fieldOrder n.kw ∨ "output" ∈ fieldOrder n.kw
   · rw [fieldOrder_io _ hio]
     simp only [List.foldl]
-    have t1 := S (e0 root₁ n, s₁) (e0 root₂ n, s₂) "output" ⟨hbase, hs⟩ k0
+    have t1 := S (e0 root₁ n, s₁) (e0 root₂ n, s₂) "output" (fun h => absurd h (by decide)) ⟨hbase, hs⟩ k0
       (fun h => absurd h (by decide)) (fun _ => ⟨rfl, rfl⟩)
     have a1 := rootKeep_stepFn env₁ r1 root₁ n sub₁ vis₁ isMod (e0 root₁ n, s₁) "output"
     have b1 := rootKeep_stepFn env₂ r2 root₂ n sub₂ vis₂ isMod (e0 root₂ n, s₂) "output"
@@ -598,25 +601,25 @@ theorem steps_rel
     generalize stepFn env₁ r1 root₁ n sub₁ vis₁ isMod (e0 root₁ n, s₁) "output" = x1 at t1 a1 i1 ⊢
     generalize stepFn env₂ r2 root₂ n sub₂ vis₂ isMod (e0 root₂ n, s₂) "output" = y1 at t1 b1 j1 ⊢
     have k1 : x1.1.d.kind = y1.1.d.kind := by rw [a1.2.1, b1.2.1]; exact k0
-    have t2 := S x1 y1 "input" t1 k1 (fun _ => ⟨i1, j1⟩) (fun h => absurd h (by decide))
+    have t2 := S x1 y1 "input" (fun h => absurd h (by decide)) t1 k1 (fun _ => ⟨i1, j1⟩) (fun h => absurd h (by decide))
     have a2 := rootKeep_stepFn env₁ r1 root₁ n sub₁ vis₁ isMod x1 "input"
     have b2 := rootKeep_stepFn env₂ r2 root₂ n sub₂ vis₂ isMod y1 "input"
     generalize stepFn env₁ r1 root₁ n sub₁ vis₁ isMod x1 "input" = x2 at t2 a2 ⊢
     generalize stepFn env₂ r2 root₂ n sub₂ vis₂ isMod y1 "input" = y2 at t2 b2 ⊢
     have k2 : x2.1.d.kind = y2.1.d.kind := by rw [a2.2.1, b2.2.1]; exact k1
-    have t3 := S x2 y2 "grouping" t2 k2 (fun h => absurd h (by decide)) (fun h => absurd h (by decide))
+    have t3 := S x2 y2 "grouping" (fun h => absurd h (by decide)) t2 k2 (fun h => absurd h (by decide)) (fun h => absurd h (by decide))
     have a3 := rootKeep_stepFn env₁ r1 root₁ n sub₁ vis₁ isMod x2 "grouping"
     have b3 := rootKeep_stepFn env₂ r2 root₂ n sub₂ vis₂ isMod y2 "grouping"
     generalize stepFn env₁ r1 root₁ n sub₁ vis₁ isMod x2 "grouping" = x3 at t3 a3 ⊢
     generalize stepFn env₂ r2 root₂ n sub₂ vis₂ isMod y2 "grouping" = y3 at t3 b3 ⊢
     have k3 : x3.1.d.kind = y3.1.d.kind := by rw [a3.2.1, b3.2.1]; exact k2
-    exact S x3 y3 "description" t3 k3 (fun h => absurd h (by decide)) (fun h => absurd h (by decide))
+    exact S x3 y3 "description" (fun h => absurd h (by decide)) t3 k3 (fun h => absurd h (by decide)) (fun h => absurd h (by decide))
   · have hni : "input" ∉ fieldOrder n.kw := fun h => hio (Or.inl h)
     have hno : "output" ∉ fieldOrder n.kw := fun h => hio (Or.inr h)
     refine (foldl_rel (fun (a₁ a₂ : Entry × TState) => AccRel RE RS a₁ a₂ ∧ a₁.1.d.kind = a₂.1.d.kind) _ _ _ _ _
       ⟨⟨hbase, hs⟩, k0⟩ ?_).1
     rintro a₁ a₂ f hf ⟨ha, hk⟩
-    refine ⟨S a₁ a₂ f ha hk (fun h => absurd (h ▸ hf) hni) (fun h => absurd (h ▸ hf) hno), ?_⟩
+    refine ⟨S a₁ a₂ f (fun h => hinc (h ▸ hf)) ha hk (fun h => absurd (h ▸ hf) hni) (fun h => absurd (h ▸ hf) hno), ?_⟩
     rw [(rootKeep_stepFn env₁ r1 root₁ n sub₁ vis₁ isMod a₁ f).2.1,
       (rootKeep_stepFn env₂ r2 root₂ n sub₂ vis₂ isMod a₂ f).2.1]
     exact hk
@@ -685,7 +688,7 @@ theorem core_rel (s₁ s₂ : TState) (hs : RS s₁ s₂) (lk₁ lk₂ : Option 
     (herr : RE (errorEntry root₁ n "unknown-group") (errorEntry root₂ n "unknown-group"))
     (htype : ∀ t, n.one? "type" = some t →
       env₁.tres.resolve env₁.reg root₁ (n :: scope₁) t = env₂.tres.resolve env₂.reg root₂ (n :: scope₂) t)
-    (hinc : n.all "include" = [])
+    (hinc : "include" ∈ fieldOrder n.kw → n.all "include" = [])
     (hch : ∀ c ∈ n.subs, ∀ t₁ t₂, RS t₁ t₂ →
       AccRel RE RS (r1 root₁ (n :: scope₁) c vis₁ t₁) (r2 root₂ (n :: scope₂) c vis₂ t₂))
     (huses : n.kw = "uses" →
